@@ -22,7 +22,7 @@ def run(tier):
               'conflict detection across spellings and finalize-twice as action properties; simulated behaviours are '
               'replayed into gin with real hooks; non-trivial = a finalize, an unlock exit or a guarded mutation')
   cc.model_check(rep, 'MC_Lock_quick' if tier == 'quick' else 'MC_Lock_thorough', timeout=3400)
-  cc.replay_scenarios(rep, 'GinCore_Scen_lock', max_files=250 if tier == 'quick' else 2000, nontrivial=_nontrivial)
+  cc.replay_scenarios(rep, 'GinCore_Scen_lock', max_files=250 if tier == 'quick' else 2000, nontrivial=_nontrivial, depth=9)
   n = 150 if tier == 'quick' else 4000
   cc.replay_behaviours(rep, 'GinCore_Sim_lock', num=n, depth=14, nontrivial=_nontrivial)
   return rep.finish()
